@@ -124,7 +124,7 @@ def run(ctx, rep: Report, deep: bool = False):
     )
     cases = []
     tds = targeted_discs(rng)
-    for tag, disc in tds if (deep or not ctx.quick) else tds[:3] + tds[7:]:
+    for tag, disc in tds:  # every loop mode in every tier (S101: one mode's end point)
         for shape in (("contiguous",), ("reversed",), ("head-not-lowest",)) if (deep or not ctx.quick) else (("head-not-lowest",),):
             check_disc(rep, cases, ctx, disc, rng, tag + ":" + shape[0], shape)
         rep.feat("targeted")
